@@ -372,13 +372,13 @@ partial def loop (h : IO.FS.Stream) (out : IO.FS.Stream) (ds : DState) : IO Unit
       | some old =>
         let new := State.ofDump d
         let cap : Int := 10000000000 * 1000000000000000000
-        for v in endMonitor old new ds.begin.signed (decide (old.emission ≥ cap)) (ds.begin.height % ds.params.period == 0) do
+        for v in endMonitorModel old new ds.begin.signed (decide (old.emission ≥ cap)) (ds.begin.height % ds.params.period == 0) ds.begin.height ds.params.period do
           out.putStrLn v
         ds := { ds with expectCom := winnerAt old ds.begin.signed ds.begin.height old.cvotes,
                         expectVer := winnerAt old ds.begin.signed ds.begin.height old.uvotes }
         let setChanged := (new.validators.map (·.pubkey)) != (old.validators.map (·.pubkey))
         if setChanged || ds.begin.height % ds.params.period == 0 then
-          for v in validatorSetMonitor new do
+          for v in validatorSetModel new do
             out.putStrLn v
       | none => pure ()
     else if kind == "begin" then
